@@ -709,7 +709,7 @@ def run(ctx):
     rng = ctx.rng
     # sampled schedules
     items = []
-    for i in range(ctx.scale(700, 25000)):
+    for i in range(ctx.scale(5000, 60000)):
         case = gen_case(rng, nmax=5 if i % 10 else 7, hmax=2 if i % 10 else 3)
         fr = rng.choice([0.0, 0.0, 0.08, 0.15, 0.3])
         items.append((case, random_chooser(random_sub(rng), fr)))
